@@ -99,8 +99,8 @@ def queries(tier):
             if b > a or (tier == 'quick' and a + b > 5):
                 continue
             w = a + 1
-            q('add_digits[%d,%d]' % (a, b), {'OP': OPN['ADDD'], 'AK': a, 'BK': b, 'KIT_MAXW': w, 'WIDE_BITS': 64 * w + 64}, ['sexp_bignum_add_digits'], backends=pf, unwind=w + 2)
-            q('sub_digits[%d,%d]' % (a, b), {'OP': OPN['SUBD'], 'AK': a, 'BK': b, 'KIT_MAXW': w, 'WIDE_BITS': 64 * w + 64}, ['sexp_bignum_sub_digits'], backends=pf, unwind=w + 2)
+            q('add_digits[%d,%d]' % (a, b), {'OP': OPN['ADDD'], 'AK': a, 'BK': b, 'KIT_MAXW': w, 'WIDE_BITS': 64 * w + 64}, ['sexp_bignum_add_digits'], backends=pf, unwind=max(5, w + 2))
+            q('sub_digits[%d,%d]' % (a, b), {'OP': OPN['SUBD'], 'AK': a, 'BK': b, 'KIT_MAXW': w, 'WIDE_BITS': 64 * w + 64}, ['sexp_bignum_sub_digits'], backends=pf, unwind=max(5, w + 2))
     for a in range(1, K + 1):
         for b in range(1, K + 1):
             q('compare[%d,%d]' % (a, b), {'OP': OPN['CMP'], 'AK': a, 'BK': b},
@@ -187,6 +187,7 @@ def queries(tier):
                     kw['units'] = UNITS_IND2
                     if a + len(ws) >= 5:
                         kw['max_words'] = 14        # shifted intermediate products of the 3-word cases
+                        kw['unwind'] = 12           # specification results have up to a+b+2 words
                 nm = 'karatsuba_step' if ind else 'bignum_mul'
                 q('%s[%d,b=%s]' % (nm, a, bname(ws, sign)), d, ['sexp_bignum_mul', 'sexp_bignum_fxmul'], **kw)
                 if sign > 0 and a != len(ws):
